@@ -23,7 +23,10 @@ RULE = (
     "cast back to no layout, identity casts), defined at the function top, at the start of an epoch or per statement / inside "
     "the loop body, feeding 1-9 tagged ops (linalg.generic with and without library_call, dart.operation, dart.schedule, opaque "
     "test.op) with 0-2 inputs and 0-2 outputs in any order, also inside scf.for (nesting <= 2, run-time trip counts 0..3, two "
-    "input vectors), casts shared by several consumers, memrefs returned. Mode implicit has no memory spaces and no casts "
+    "input vectors), casts shared by several consumers, memrefs returned. After the last writer through a cast path of a root, "
+    "read-only accesses through ANOTHER path of that root (subview with own casts, one cast chained on the first path, the bare "
+    "root with the cast set-memory-space gives it) are interleaved with later reads through the first path, both orders, also "
+    "in loops (classes alt-read:*). Mode implicit has no memory spaces and no casts "
     "(set-memory-space makes them), mode explicit has both written out. Pipeline: [alloc-to-global,] set-memory-space, "
     "realize-memref-casts [, clear-memory-space]. The input program (casts = aliases) and the output program (allocs + "
     "memref.copy) are executed on the symbolic buffer machine (vlib/machine_c12.py) and compared: same tagged-op sequence, same "
@@ -43,8 +46,9 @@ ASSUMPTIONS = [
     "interpreter vlib/interp.py + symbolic buffer machine vlib/machine_c12.py are the reference semantics: casts are aliases, "
     "memref.copy moves logical elements, accelerator ops read all inputs and overwrite all outputs (outputs are not read), "
     "opaque ops read and write every memref operand",
-    "precondition kept by the generator: the spans first user .. last user of two different access paths (cast buffers or the "
-    "uncast value) to one root buffer do not overlap",
+    "precondition kept by the generator: while a cast buffer of a root may hold data that is newer than the original (from its "
+    "first use to the top-level statement of its last writer) the root is reached through no other path; afterwards other "
+    "paths may READ it, interleaved with further reads through the first path; a buffer that is only read may be shared freely",
     "meaning of a dense initial value under a TSL layout: logical element idx is stored at position addr(idx) "
     "(vlib/gen_tsl.addr, written from snaxc/ir/tsl/README.md)",
     "reading a never-written memref.alloc is undefined: the comparison accepts anything where the input program reads such data",
@@ -367,6 +371,8 @@ def _classes(c: Case):
         cls.add("cast-shared")
     if c.r.get("a2g"):
         cls.add("alloc-to-global")
+    if b.alt_reads:
+        cls.add("alt-read:any")
     return cls
 
 
